@@ -145,3 +145,23 @@ Definition render_fields (st : style) (f : feature) : list str :=
    f_score f; f_strand f; f_frame f; render_attrs st (f_attrs f)] ++ f_extra f.
 
 Definition render_line (st : style) (f : feature) : str := join [TAB] (render_fields st f).
+
+(* ---- a (file-level) dialect D "fits" a line of style st carrying attributes a: parsing the line
+   with D and printing it with D (keep_order=True) are faithful.  D is typically the vote over
+   the inspected window, whose [order] is the first-seen union of keys over several lines. ---- *)
+Definition style_fmt (st : style) : str := match st_kv st with KvSpaceQuoted => GTF | _ => GFF3 end.
+Definition style_kvsep (st : style) : str := match st_kv st with KvEq => [EQ] | _ => [SP] end.
+Definition style_quoted (st : style) : bool := match st_kv st with KvSpaceQuoted => true | _ => false end.
+
+Fixpoint sorted_b {A} (key : A -> N) (l : list A) : bool :=
+  match l with
+  | [] => true
+  | x :: t => match t with [] => true | y :: _ => key x <=? key y end && sorted_b key t
+  end.
+
+Definition fits (st : style) (a : attrs) (D : dialect) : bool :=
+  str_eqb (d_fmt D) (style_fmt st) && str_eqb (d_kvsep D) (style_kvsep st) && Bool.eqb (d_quoted D) (style_quoted st)
+  && Bool.eqb (d_trailing D) (st_trailing st) && negb (d_leading D) && str_eqb (d_mvsep D) [COMMA]
+  && (if Nat.ltb 1 (nparts st a) then str_eqb (d_fsep D) (st_fsep st) else fsep_ok (d_fsep D))
+  && (negb (multi a) || Bool.eqb (d_repeated D) (st_repeated st))
+  && sorted_b (fun it : str * list str => order_key (d_order D) (fst it)) (style_items st a).
